@@ -49,7 +49,9 @@ theorem C19_duplicate_error (env : Env) (s : State) (tx : Tx) (fb : Header)
       · simp [hn]
       · simp [hg]
     rw [createNextState_eq]
-    simp only [Outcome.foldlM', cnsStep, if_pos hk, hf, Outcome.bind]
+    by_cases hdup : (s.txs.any fun t => decide (t.hash = tx.hash)) = true
+    · simp only [Outcome.foldlM', cnsStep, if_pos hdup]
+    · simp only [Outcome.foldlM', cnsStep, if_neg hdup, if_pos hk, hf, Outcome.bind]
   have h1 : ∃ rel, loadRelevantCoins s [tx] = .ok rel := by
     simp [loadRelevantCoins, hwf.1, hwf.2, hin, Outcome.foldlM', Outcome.bind]
   obtain ⟨rel, h1⟩ := h1
@@ -61,7 +63,9 @@ theorem C19_duplicate_error (env : Env) (s : State) (tx : Tx) (fb : Header)
   unfold applyBatch
   simp [h1, h2, h3, hst, Outcome.bind, Outcome.forM', Outcome.foldlM', hk]
 
-/-- the same faucet transaction twice in one batch is rejected -/
+/-- the same faucet transaction twice in one batch is rejected (by the marker mechanism).  Since the
+    `DuplicateTx` guard was added to `create_next_state` the hypotheses `hk`, `hng`, `hsep` are no longer needed
+    for this conclusion (`C03_no_same_hash_twice`, `C19_once_per_block`); the statement is kept as it was. -/
 theorem C19_same_batch (env : Env) (s : State) (txs : List Tx) (fb : Header) (tx : Tx)
     (hk : tx.kind = .faucet) (hng : env.isGrandfathered tx.hash = false) (htwice : (txs.filter (· = tx)).length ≥ 2)
     (hsep : ∀ t ∈ txs, markerOf env tx ∉ t.inputs) :
@@ -106,14 +110,117 @@ theorem C19_marker_unspendable (env : Env) (s s' : State) (txs : List Tx) (fb : 
   rw [hco, cnsFold_keep hc hnotin hp]
   exact h0
 
-/-- known finding (K3/F11): the grandfathered transaction gets no marker, so nothing stops a replay:
-    the faucet step leaves the state untouched for it -/
+/-- known finding (K3/F11): the grandfathered transaction gets no marker: the faucet step leaves the state
+    untouched for it.  So the marker mechanism does not stop a replay of it.  Within one block the replay is now
+    stopped by the `DuplicateTx` guard of `create_next_state` (`C19_grandfathered_once_per_block` below, added
+    with the fix); in a later block — whose transaction list starts empty — nothing but the mainnet/grandfathered
+    test and the marker lookup stands in its way, as before. -/
 theorem C19_grandfathered_no_marker (env : Env) (s : State) (tx : Tx)
     (hg : env.isGrandfathered tx.hash = true) (hm : s.coins.getCoin (markerOf env tx) = none) :
     handleFaucetTx env s tx = .ok s := by
   unfold handleFaucetTx
   have hm' : s.coins.getCoin { txhash := env.fdp tx.hash, index := 0 } = none := hm
   simp [hg, hm']
+
+/-- **at most once per block**, for ANY transaction (faucet or not, grandfathered or not): if the block's
+    transaction list already holds a transaction with the hash of `tx`, every batch containing `tx` fails -/
+theorem C19_once_per_block (env : Env) (s : State) (txs : List Tx) (fb : Header) (tx : Tx) (htx : tx ∈ txs)
+    (hdup : ∃ t ∈ s.txs, t.hash = tx.hash) :
+    ∀ s', applyBatch env s txs fb ≠ .ok s' := by
+  intro s' h
+  obtain ⟨rel, ns, next, _, _, _, hc, _⟩ := applyBatch_ok h
+  rw [createNextState_eq] at hc
+  exact cnsFold_dupHash (st := { s with coins := cnsCoins1 s txs rel s.tip906 }) htx hdup hc
+
+/-- … in particular for the grandfathered faucet transaction, which leaves no marker
+    (`C19_grandfathered_no_marker`) and could be applied to the same block twice before the fix -/
+theorem C19_grandfathered_once_per_block (env : Env) (s : State) (txs : List Tx) (fb : Header) (tx : Tx)
+    (_hg : env.isGrandfathered tx.hash = true) (htx : tx ∈ txs) (hdup : ∃ t ∈ s.txs, t.hash = tx.hash) :
+    ∀ s', applyBatch env s txs fb ≠ .ok s' :=
+  C19_once_per_block env s txs fb tx htx hdup
+
+/-- … and when that is the batch's only defect (a well-formed, input-less faucet transaction on its own) the
+    error is `DuplicateTx`.  Unlike `C19_duplicate_error` this needs no hypothesis about the network or about
+    grandfathering: the guard comes before the faucet step. -/
+theorem C19_grandfathered_once_per_block_error (env : Env) (s : State) (tx : Tx) (fb : Header)
+    (hk : tx.kind = .faucet) (hdup : ∃ t ∈ s.txs, t.hash = tx.hash)
+    (hwf : tx.isWellFormed = true ∧ tx.melTotalFits = true) (hin : tx.inputs = []) :
+    applyBatch env s [tx] fb = .reject .duplicateTx := by
+  have hany : (s.txs.any fun t => decide (t.hash = tx.hash)) = true := by
+    obtain ⟨t, ht, e⟩ := hdup
+    exact List.any_eq_true.mpr ⟨t, ht, by simpa using e⟩
+  have hst : ∀ rel, createNextState env s [tx] rel s.tip906 = .reject .duplicateTx := by
+    intro rel
+    rw [createNextState_eq]
+    simp only [Outcome.foldlM', cnsStep, if_pos hany]
+  have h1 : ∃ rel, loadRelevantCoins s [tx] = .ok rel := by
+    simp [loadRelevantCoins, hwf.1, hwf.2, hin, Outcome.foldlM', Outcome.bind]
+  obtain ⟨rel, h1⟩ := h1
+  have h2 : loadStakeInfo s [tx] = .ok [] := by
+    simp [loadStakeInfo, Outcome.foldlM', hk]
+  have h3 : ∀ ns, checkTxValidity env s (lastHeaderOf s fb) tx rel ns = .ok () := by
+    intro ns
+    simp [checkTxValidity, hin, Outcome.foldlM', Outcome.bind, checkBalanced, hk]
+  unfold applyBatch
+  simp [h1, h2, h3, hst, Outcome.bind, Outcome.forM', Outcome.foldlM', hk]
+
+/-! ### the fix at work -/
+namespace C19Witness
+
+/-- every faucet transaction is grandfathered -/
+def env : Env := {
+  vm := { hash := id, sigOk := fun _ _ _ => true },
+  liqHash := id, fdp := fun h => 9 :: h, rewardId := fun _ => [], hdrHash := fun _ => [],
+  powOk := fun _ _ _ _ => .invalid, isGrandfathered := fun _ => true,
+  historyRoot := fun _ => [], coinsRoot := fun _ => [], txsRoot := fun _ _ => [],
+  poolsRoot := fun _ => [], stakesRoot := fun _ => [] }
+
+def s : State := {
+  network := .mainnet, height := 10, history := [], coins := { coins := [], counts := [] },
+  txs := [], feePool := 0, feeMultiplier := 0, tips := 0, doscSpeed := 0, pools := [], stakes := [] }
+
+/-- a (grandfathered) faucet transaction minting 5 MEL -/
+def g : Tx := {
+  kind := .faucet, inputs := [], outputs := [(⟨[8], 5, .mel, []⟩ : CoinData)], fee := 0,
+  covenants := [], data := [], sigs := [], hash := [3], rawLen := 0, covHashes := [] }
+
+def isDup : Outcome State → Bool
+  | .reject .duplicateTx => true
+  | _ => false
+
+theorem eq_of_isDup {o : Outcome State} (h : isDup o = true) : o = .reject .duplicateTx := by
+  cases o with
+  | ok a => cases h
+  | crash c => cases h
+  | reject e => cases e <;> first | rfl | cases h
+
+end C19Witness
+
+open C19Witness in
+/-- non-vacuity and the fix at work, on mainnet: the grandfathered faucet transaction is accepted once, leaves no
+    marker, lands in the block's transaction list (the hypotheses of `C19_grandfathered_once_per_block` and of
+    `C19_grandfathered_once_per_block_error` hold of the resulting state), and its second application to the
+    same block — alone or twice in one batch — is rejected with `DuplicateTx` -/
+theorem C19_grandfathered_once_per_block_nonvacuous :
+    env.isGrandfathered g.hash = true ∧ g.kind = .faucet ∧ g.inputs = [] ∧
+    (g.isWellFormed = true ∧ g.melTotalFits = true) ∧
+    applyBatch env s [g, g] default = .reject .duplicateTx ∧
+    ∃ s₁, applyBatch env s [g] default = .ok s₁ ∧ s₁.coins.getCoin (markerOf env g) = none ∧
+      (∃ t ∈ s₁.txs, t.hash = g.hash) ∧ applyBatch env s₁ [g] default = .reject .duplicateTx := by
+  refine ⟨rfl, rfl, rfl, ⟨by decide, by decide⟩, eq_of_isDup (by decide +kernel), ?_⟩
+  have h : (match applyBatch env s [g] default with
+    | .ok s₁ => decide (s₁.coins.getCoin (markerOf env g) = none) && s₁.txs.any (fun t => t.hash = g.hash)
+    | _ => false) = true := by decide +kernel
+  cases hs : applyBatch env s [g] default with
+  | ok s₁ =>
+    rw [hs] at h
+    simp only [Bool.and_eq_true, decide_eq_true_eq, List.any_eq_true] at h
+    obtain ⟨h1, t, ht, e⟩ := h
+    have hdup : ∃ t ∈ s₁.txs, t.hash = g.hash := ⟨t, ht, e⟩
+    exact ⟨s₁, rfl, h1, hdup,
+      C19_grandfathered_once_per_block_error env s₁ g default rfl hdup ⟨by decide, by decide⟩ rfl⟩
+  | reject e => rw [hs] at h; cases h
+  | crash c => rw [hs] at h; cases h
 
 end Mel
 
@@ -124,3 +231,7 @@ end Mel
 #print axioms Mel.C19_marker_inserted
 #print axioms Mel.C19_marker_unspendable
 #print axioms Mel.C19_grandfathered_no_marker
+#print axioms Mel.C19_once_per_block
+#print axioms Mel.C19_grandfathered_once_per_block
+#print axioms Mel.C19_grandfathered_once_per_block_error
+#print axioms Mel.C19_grandfathered_once_per_block_nonvacuous
